@@ -11,7 +11,7 @@ SPEC = {
     "id": "C20",
     "level": "exploration",
     "design_ref": "DESIGN.md section 5, C20",
-    "rule": ("cases = every file derivable from a small grammar: 1-3 blocks drawn from {every shape of W-DAG(3) and W-DIG(3,4), zero-vertex block}; per block 1-2 header lines, "
+    "rule": ("cases = every file derivable from a small grammar: 1-3 blocks drawn from {every shape of W-DAG(3) and W-DIG(3,4), zero-vertex block}; per block 1-2 header lines, the '#S' lines after or before the id header line, "
              "0-4 '#S' lines (incl. an exact duplicate, a one-node line, and on cyclic graphs different walk-shaped sequences over the same arcs), optional blank lines before the count / between edge lines / at the end, optional leading whitespace, "
              "weights written as 3 / 2.5 / 1e1; then EVERY single-line corruption of each file (token removed from / added to an edge line, non-numeric weight, non-numeric or "
              "missing vertex count, constraint arc absent from the graph). Oracle = the generating description (arcs, weights, id, constraints, n, m, width by the cover oracle); "
@@ -22,7 +22,7 @@ SPEC = {
 
 
 def bounds(tier):
-    return {"shapes": "W-DAG(n<=3) + W-DIG(n<=3, arcs<=4) + zero-vertex block", "blocks_per_file": "1-2 (quick) / 1-3 (thorough)", "layout_variants": 12}
+    return {"shapes": "W-DAG(n<=3) + W-DIG(n<=3, arcs<=4) + zero-vertex block", "blocks_per_file": "1-2 (quick) / 1-3 (thorough)", "layout_variants": len(LAYOUTS)}
 
 
 LAYOUTS = []
@@ -30,7 +30,10 @@ for headers in (1, 2):
     for blank_before_count in (False, True):
         for blank_between in (False, True):
             for lead_ws in (False, True):
-                LAYOUTS.append({"headers": headers, "blank_before_count": blank_before_count, "blank_between": blank_between, "lead_ws": lead_ws})
+                LAYOUTS.append({"headers": headers, "blank_before_count": blank_before_count, "blank_between": blank_between, "lead_ws": lead_ws, "s_first": False})
+                if not lead_ws:
+                    # the '#S' lines precede the id header line ("the id is the first non-#S header line")
+                    LAYOUTS.append({"headers": headers, "blank_before_count": blank_before_count, "blank_between": blank_between, "lead_ws": lead_ws, "s_first": True})
 
 
 def _block_descr(shape, seed, idx, variant):
@@ -70,11 +73,15 @@ def render(blocks):
     for b in blocks:
         lay = b["layout"]
         ind = "  " if lay["lead_ws"] else ""
+        if lay.get("s_first"):
+            for sq in b["slines"]:
+                lines.append(f"{ind}#S " + " ".join(sq))
         lines.append(f"{ind}# {b['id']}")
         if lay["headers"] == 2:
             lines.append(f"{ind}#second header line, ignored")
-        for sq in b["slines"]:
-            lines.append(f"{ind}#S " + " ".join(sq))
+        if not lay.get("s_first"):
+            for sq in b["slines"]:
+                lines.append(f"{ind}#S " + " ".join(sq))
         if lay["blank_before_count"]:
             lines.append("")
         if b["zero"]:
